@@ -28,6 +28,12 @@ CHECKS = {
          "Declarative tiers decided on the bounded model; the code's margins, tiers and Condorcet answers compared exactly on exhaustive small and tournament-directed profiles.", "5 C06"),
  "C17": ("exact law of the code's random choices (all outcomes of a scripted RNG enumerated) validated by TLC against probability-labelled actions; ProbSum on the bounded model",
          "Distributional claims are decided exactly, not sampled: every step's conditional probability must equal the label of the matching spec action.", "5 C17"),
+ "C15": ("TLC: MC_Generators (interval / Bradley-Terry / slate-Bradley-Terry table algebra) + call-level trace validation of interval, combined interval, pdfs_by_bloc and ballot_type_pdf tables as integer numerators over the normaliser",
+         "Each table read from the real objects must equal the unnormalised integer weights TLC recomputes from the inputs, entry by entry, with the logged scale equal to the normaliser; sizes beyond TLC's 32-bit range are compared with the same formulas in exact Python fractions (declared in evidence).", "0.7 / notes/C14_C15_report.md"),
+ "C18": ("TLC: MC_Loaders (row-count / pattern / column facts on all small tables) + trace validation of load_csv / load_scottish / to_csv on generated files against Loaders.tla",
+         "Abstract tables are concretised into CSV text (delimiters, quoting, awkward names), loaded by the real pandas-based loader and the projected profile or error class is compared by TLC with LoadCSV / the Scottish file model.", "0.7 / notes/C18_C19_report.md"),
+ "C19": ("TLC: MC_Metrics (metric axioms on triples of small bags, ballot-graph facts) + trace validation of lp_dist values and BallotGraph node / edge sets (n = 2..6) against Metrics.tla",
+         "L1 / Linf exactly and p-th powers for p = 2, 3 as rationals; Nodes(n) / Edges(n) from the statement; node weights of loaded profiles.", "0.7 / notes/C18_C19_report.md"),
  "C20": ("TLC: MC_Validation (decision table total, ok iff no precondition violated) + call-level trace validation of single-violation and boundary requests to every constructor / helper against Validation.tla",
          "One named predicate per documented precondition; every request violates exactly one (smallest step and grossly, any ballot position) or sits on the accepted side of the boundary; the outcome class is compared by TLC.", "5 C20"),
  "C13": ("TLC trace validation of IRV/SNTV/SequentialRCV/TopTwo/Alaska runs against the compositions as defined in Election.tla",
